@@ -33,15 +33,7 @@ Definition EncAll (l : list attr) : Prop := forall x, In x l -> exists s, encode
 Lemma enc_ok_name : forall x s, encode_attr x = EncOk s -> aname x <> [] /\ blen (aname x) < 65535.
 Proof.
   intros x s H. unfold encode_attr in H. destruct (aname x) as [|b t] eqn:E; [discriminate|].
-  split; [discriminate|]. destruct (dt_len (aval x)); [|discriminate]. destruct (ds_len (aval x)); [|discriminate].
-  destruct (N.leb_spec 65535 (blen (b :: t))); [discriminate | assumption].
-Qed.
-
-Lemma enc_panic_name : forall x, encode_attr x = EncPanic -> 65535 <= blen (aname x).
-Proof.
-  intros x H. unfold encode_attr in H. destruct (aname x) as [|b t] eqn:E; [discriminate|].
-  destruct (dt_len (aval x)); [|discriminate]. destruct (ds_len (aval x)); [|discriminate].
-  destruct (N.leb_spec 65535 (blen (b :: t))); [assumption | discriminate].
+  split; [discriminate|]. destruct (N.leb_spec 65535 (blen (b :: t))); [discriminate | assumption].
 Qed.
 
 Lemma EncAll_nonempty : forall l, EncAll l -> ~ In [] (map aname l).
@@ -74,7 +66,6 @@ Definition eff (l l' : list attr) (o : op) (r : res) : Prop :=
     | ODelete n => attr_get l n <> None /\ forall m, attr_get l' m = if bytes_eqb n m then None else attr_get l m
     end
   | RErr => l' = l /\ match o with ODelete n => attr_get l n = None | _ => True end
-  | RPanic => l' = l /\ match o with OWrite n (Some _) => 65535 <= blen n | _ => False end
   end.
 
 Definition post (l : list attr) (o : op) (st' : state) (r : res) : Prop :=
@@ -163,7 +154,7 @@ Proof.
   - inversion H; subst. exists l. rewrite app_nil_r. split4; [exact R | apply Permutation_refl | tauto | tauto].
   - destruct (aname a) as [|b t] eqn:EN; [discriminate|]. rewrite <- EN in *.
     destruct (existsb (bytes_eqb (aname a)) seen) eqn:EX; [discriminate|].
-    destruct (encode_attr a) as [sz| |] eqn:EA; try discriminate.
+    destruct (encode_attr a) as [sz|] eqn:EA; try discriminate.
     destruct (heap_insert P hp a) as [hp1 id| |] eqn:HI; try discriminate.
     destruct (idx_insert P (name_hash (aname a), id) ix) as [ix1|] eqn:II; [|discriminate].
     destruct (dense_insert name_hash P Hcap ix hp l a hp1 id ix1 R HI II) as [l1 [l2 [EL R1]]]. subst l.
@@ -181,19 +172,6 @@ Proof.
       apply EncAll_cons. split; [eexists; exact EA | exact E2].
 Qed.
 
-Lemma daw_panic : forall todo seen ix hp, daw_add_all name_hash P seen ix hp todo = TPanic ->
-  exists x, In x todo /\ encode_attr x = EncPanic.
-Proof.
-  induction todo as [|a r IH]; intros seen ix hp H; cbn [daw_add_all] in H; [discriminate|].
-  destruct (aname a) as [|b t] eqn:EN; [discriminate|]. rewrite <- EN in *.
-  destruct (existsb (bytes_eqb (aname a)) seen); [discriminate|].
-  destruct (encode_attr a) as [sz| |] eqn:EA; try discriminate.
-  - destruct (heap_insert P hp a) as [hp1 id| |]; try discriminate.
-    destruct (idx_insert P (name_hash (aname a), id) ix) as [ix1|]; [|discriminate].
-    destruct (IH _ _ _ H) as [x [HI E]]. exists x. split; [right; exact HI | exact E].
-  - exists a. split; [left; reflexivity | exact EA].
-Qed.
-
 Lemma transition_post : forall attrs n v st' r,
   NoDup (map aname attrs) -> EncAll attrs ->
   transition name_hash P attrs (mkAttr n v) = (st', r) -> st' <> Broken ->
@@ -202,7 +180,7 @@ Proof.
   intros attrs n v st' r ND EA H NB. unfold transition in H.
   assert (SAME : forall r0, r0 = RErr -> post attrs (OWrite n (Some v)) (Compact attrs) r0).
   { intros r0 ->. apply post_same; try assumption; [reflexivity | cbn; tauto]. }
-  destruct (daw_add_all name_hash P [] [] heap_empty (attrs ++ [mkAttr n v])) as [ix hp| | |] eqn:D.
+  destruct (daw_add_all name_hash P [] [] heap_empty (attrs ++ [mkAttr n v])) as [ix hp| |] eqn:D.
   - destruct (p_limit P <? p_base P + (4 + p_info P)); inversion H; subst; [apply SAME; reflexivity|].
     destruct (daw_ok _ _ _ _ [] _ _ (dense_rep_empty name_hash P Hcap) (fun m => conj (fun x => x) (fun x => x)) D)
       as [l' [R' [PM [ND' EA']]]]. cbn [app] in PM.
@@ -221,10 +199,6 @@ Proof.
     + cbn [eff]. intro m. rewrite (attr_get_perm l' (attrs ++ [mkAttr n v]) m NDall PM).
       rewrite (attr_get_insert attrs [] (mkAttr n v) m) by (rewrite app_nil_r; exact NI). rewrite app_nil_r. reflexivity.
   - inversion H; subst. apply SAME; reflexivity.
-  - inversion H; subst. apply post_same; try assumption; [reflexivity|]. cbn [eff]. split; [reflexivity|].
-    destruct (daw_panic _ _ _ _ D) as [x [HI E]]. apply in_app_or in HI. destruct HI as [HI|[<-|[]]].
-    + destruct (EA x HI) as [s Hs]. congruence.
-    + apply enc_panic_name in E. exact E.
   - destruct (p_ovf_err P); [inversion H; subst; apply SAME; reflexivity|].
     destruct (p_limit P <? p_base P + (4 + p_info P)); inversion H; subst; [apply SAME; reflexivity | congruence].
 Qed.
@@ -235,7 +209,7 @@ Lemma write_compact_post : forall attrs n v st' r,
   post attrs (OWrite n (Some v)) st' r.
 Proof.
   intros attrs n v st' r ND EA H NB. unfold write_compact in H.
-  destruct (encode_attr (mkAttr n v)) as [sz| |] eqn:EN.
+  destruct (encode_attr (mkAttr n v)) as [sz|] eqn:EN.
   - cbn [aname] in H. destruct (replace_name n (mkAttr n v) attrs) as [attrs'|] eqn:RN.
     + destruct (p_limit P <? hdr_size P attrs'); inversion H; subst.
       * apply post_same; try assumption; [reflexivity | cbn; tauto].
@@ -249,8 +223,6 @@ Proof.
         destruct (insert_post attrs [] n v) as [A [B [C D]]]; try (rewrite app_nil_r; assumption); [eexists; exact EN|].
         rewrite app_nil_r in *. exists (attrs ++ [mkAttr n v]). split5; try assumption; reflexivity.
   - inversion H; subst. apply post_same; try assumption; [reflexivity | cbn; tauto].
-  - inversion H; subst. apply post_same; try assumption; [reflexivity|]. cbn [eff]. split; [reflexivity|].
-    apply enc_panic_name in EN. exact EN.
 Qed.
 
 (* ---- dense write ---- *)
@@ -264,9 +236,8 @@ Proof.
   intros ix hp l n v st' r R ND EA Inj H NB. unfold write_dense in H.
   assert (SAME : forall r0, r0 = RErr -> post l (OWrite n (Some v)) (Dense ix hp) r0).
   { intros r0 ->. apply post_same; try assumption; cbn; tauto. }
-  destruct (encode_attr (mkAttr n v)) as [sz| |] eqn:EN.
+  destruct (encode_attr (mkAttr n v)) as [sz|] eqn:EN.
   2:{ inversion H; subst. apply SAME; reflexivity. }
-  2:{ inversion H; subst. apply post_same; try assumption. cbn [eff]. split; [reflexivity|]. apply enc_panic_name in EN. exact EN. }
   cbn [aname] in H. destruct R as [F [N1 [N2 W]]].
   pose proof (search_split name_hash hp ix l n F Inj) as SS.
   destruct (idx_search (name_hash n) ix) as [id|] eqn:SE.
